@@ -1222,7 +1222,9 @@ def census(ctx, A):
             continue
         # the builders proper (their Some is a resolved item, or the laid-out regions): in a lookup helper `Ok(None)` means "there
         # is none", and what the builder does with that is seen at its call site
-        if 'ItemStateResolved' not in fn.raw.get('output', '') and fn.id != A['RR'].id:
+        # (.. except the base lookup, whose only `Ok(None)` is "the base type is not resolved yet": the forwarders, the AsRef
+        # conversions and the hierarchy walk all skip a base for which it answers None)
+        if 'ItemStateResolved' not in fn.raw.get('output', '') and fn.id != A['RR'].id and not fn.id.endswith('type_definition::get_region_name_and_type_definition'):
             continue
         seen = {}
         for g in guards_of(fn):
@@ -1240,7 +1242,7 @@ def census(ctx, A):
             seen[key] = seen.get(key, 0) + 1
             if seen[key] > 1:
                 key += '#%d' % seen[key]
-            ctx.ob(['C10', 'C03'], 'R-CENSUS', key, ok,
+            ctx.ob(['C10', 'C03'] + (['C07', 'C06', 'C04'] if fn.id.endswith('get_region_name_and_type_definition') else []), 'R-CENSUS', key, ok,
                    ('deferred because %s gave no value yet' % src) if ok else 'a description is deferred ("not yet") for a reason that is not an unresolved dependency: %s' % show(g.pred)[:160], g.where(),
                    nontrivial=not ok)
     ctx.ob(['C10'], 'R-CENSUS', 'deferred|census', n >= 7, 'deferral points examined: %d (floor 7)' % n, nontrivial=False)
